@@ -201,6 +201,30 @@ def vf : P String := do
       prev := cur
       t := t + 1
     return v
+  -- LinearSupport: the agenda-loop MODEL (`lsLoop`, Model/POMDP.lean) run with an exact vertex oracle (all vertices of the partition of
+  -- good ∪ {new support}; corners excluded like the code) and the code's acceptance test, from the previous RETURNED list; its final
+  -- set must be the returned list of that timestep as a set of vectors (1e-9).
+  -- (only on bit-exact instances: elsewhere rounding noise of 1e-17 decides ties between vectors that are equal in exact arithmetic)
+  let v := if solver != "LinearSupport" || !exact then v else Id.run do
+    let mut v := v
+    let mut prev : List Vec := [vzero m.S]
+    let mut t := 0
+    for cur in vecLists do
+      if t > 0 && !cur.isEmpty && cur.length ≤ 12 && backupSize m τ prev ≤ 30000 then
+        let acc : Rat → Bool := fun d => decide (0 < d) && !(AITB.MDP.checkEqualGeneral d 0)
+        let interior : List Vec → List Vec := fun l => l.filter (fun x => !((List.range m.S).any (fun s => decide (x.get s > 1 - 1 / 100000))))
+        let oracle : Vec → List Vec → List Vec := fun sup good => interior (partitionVertices m.S (good ++ [sup]))
+        let sup := bestBackupAtV m τ prev
+        let g0 := lsCorners m sup m.S
+        let st := lsLoop m sup acc oracle 64 ⟨g0, [], [], interior (partitionVertices m.S g0)⟩
+        let modelInImpl := st.good.all (fun α => memVec false m.S cur α)
+        let implInModel := cur.all (fun α => memVec false m.S st.good α)
+        v := { v with tag := v.tag ++ " ls_loop_model" }
+        if !(modelInImpl && implInModel) then
+          v := v.diffIf true s!"{solver} loop_model_set t={t} model={st.good.length} impl={cur.length} modelInImpl={modelInImpl} implInModel={implInModel} agendaLeft={st.agenda.length}"
+      prev := cur
+      t := t + 1
+    return v
   -- findBestAtPoint's value as computed by the library at the harness beliefs
   let v := v.diffIf (vals.length != bs.length) s!"{solver} findBestAtPoint count"
   let v := (bs.zip vals).foldl (fun v (bv : Vec × Rat) =>
